@@ -295,7 +295,9 @@ def _slide_config(ctx, idx):
             order = list(range(kept))
             r.shuffle(order)
     return dict(idx=idx, R=R, C=C, th=th, tw=tw, full=full, samples=samples, bits=bits, omit=omit, order=order,
-                int_spelling=r.choice(['int', 'int', 'np.int64', 'np.int32', 'np.uint16']))
+                int_spelling=r.choice(['int', 'int', 'np.int64', 'np.int32', 'np.uint16']),
+                # DimensionOrganizationType of an image with explicit positions: 'TILED_SPARSE', or absent (the attribute is optional)
+                org_attr='present' if full else r.choice(['present', 'present', 'absent']))
 
 
 def _touches_omitted(cfg, r0, r1, c0, c1):
@@ -322,6 +324,8 @@ def _check_slide(ctx, cfg, requests, reqs, pending, exhaustive=False):
     R, C, th, tw = cfg['R'], cfg['C'], cfg['th'], cfg['tw']
     ds, tpm = slide_image(R, C, th, tw, tiled_full=cfg['full'], samples=cfg['samples'], bits=cfg['bits'],
                           rng=ctx.np_rng('slidepix', cfg['idx']), omit=[tuple(t) for t in cfg['omit']], frame_order=cfg['order'])
+    if cfg.get('org_attr', 'present') == 'absent' and not cfg['full']:
+        del ds.DimensionOrganizationType
     want = tpm.copy()
     for (i, j) in cfg['omit']:
         want[i * th:(i + 1) * th, j * tw:(j + 1) * tw] = 0
@@ -386,7 +390,7 @@ def _check_slide(ctx, cfg, requests, reqs, pending, exhaustive=False):
                  argument_types='integers' if modelable(req) else 'non-integer:' + '/'.join(type(v).__name__ for v in req[:4] if v is not None and not modelable((v,))),
                  outcome='ok' if st == 'ok' else val.split(':')[0], convention='0-based' if ai else '1-based',
                  matrix=f'{min(R, 8)}x{min(C, 8)}' if not exhaustive else 'exhaustive', tile=f'{th}x{tw}', entry=entry,
-                 pixel_array_cached=cached is not None,
+                 pixel_array_cached=cached is not None, organisation_attribute=cfg.get('org_attr', 'present'),
                  remainder=(min(R % th, 2), min(C % tw, 2)),
                  divides=(R % th == 0, C % tw == 0))
         # ---- oracle
